@@ -34,6 +34,15 @@ MODEL_KW = {"extract_comment_metadata": False}
 SETS_BLOCK_KEYWORDS = "BEGIN SETS;\n  CHARSET both = begin trees;\n  CHARSET again = tree begin;\nEND;\n"
 SETS_KEYWORDS_DOC = ("#NEXUS\nBEGIN TAXA; DIMENSIONS NTAX=2; TAXLABELS a b; END;\n" + SETS_BLOCK_KEYWORDS
                      + "BEGIN TREES; TREE t = (a,b); END;\n")
+# characters, a SETS block whose LAST character set is ALL, then trees with `-` inside unquoted tokens
+# (scientific notation, a negative length, a hyphenated name): whatever the SETS parser does to the shared
+# tokenizer's delimiters must be undone before the TREES block
+CHARS_SETS_HYPHEN_DOC = ("#NEXUS\nBEGIN TAXA;\n  DIMENSIONS NTAX=3;\n  TAXLABELS Aus-bus c d;\nEND;\n"
+                         "BEGIN CHARACTERS;\n  DIMENSIONS NCHAR=4;\n  FORMAT DATATYPE=DNA MISSING=? GAP=-;\n  MATRIX\n"
+                         "    Aus-bus AC-T\n    c ACGT\n    d A?GT\n  ;\nEND;\n"
+                         "BEGIN SETS;\n  CHARSET first = 1-2;\n  CHARSET whole = ALL;\nEND;\n"
+                         "BEGIN TREES;\n  TREE one = [&R] ((Aus-bus:1.5e-05,c:0.25):0.5,d:-0.125);\n"
+                         "  TREE two = (Aus-bus:0.5,(c:2.5e-07,d:1.0));\nEND;\n")
 ALARM_S = 10
 
 # ----------------------------------------------------------------------------------------------
@@ -45,18 +54,31 @@ LABEL_POOLS = [
     ["Alpha", "beta", "GAMMA", "delta_x", "e f", "it's", "z-1", "O.tau", "q9", "R2D2", "uu", "vv"],
     ["a", "b", "c", "d", "e", "f", "g", "h", "i", "j", "k", "l"],
     ["1x", "x1", "A b", "c_d", "E'f", "g.h", "I-J", "k+l", "m#n", "o!p", "q|r", "été"],
+    ["Aus-bus", "C-d", "e-f-g", "x-1", "h2", "i-9", "j-k", "l", "m-", "n-o", "p", "q-r-s"],
 ]
+
+# edge lengths whose text is what repr(float(text)) gives back: scientific notation with a negative
+# exponent, negative lengths (a `-` inside an unquoted token)
+EXOTIC_LENGTHS = [1e-05, 2.5e-07, 1.5e-10, 3e-06, -0.5, -0.125, -2.5e-05, 12.0]
+
+
+def raw_hyphen_ok(s):
+    """a label that may be written unquoted although it contains `-`"""
+    return "-" in s and re.fullmatch(r"[A-Za-z0-9.\-]+", s) is not None and not s.startswith("-")
 
 TREE_COMMENTS = ["[&R] ", "[&U] ", "[&r]", "[&u] ", "", "", "", "[&W 0.5] ", "[&W 1/4] ", "[note] ",
                  "[&foo=1,bar=\"x\"] ", "[&R][&W 0.25] ", "[&U] [c1][c2] ", "[ &R ] ", "[&!color=#ff0000] "]
 NODE_COMMENTS = ["", "", "", "", "[nc]", "[&x=2]", "[&&NHX:S=h]"]
 
 
-def spec_newick(rng, t, labels, token_of=None, with_len=True, node_comments=False, internal_labels=False):
+def spec_newick(rng, t, labels, token_of=None, with_len=True, node_comments=False, internal_labels=False,
+                raw_hyphen=False, exotic=False):
     """newick text of a dv.trees spec tree with the given leaf labels (escaped by the library)"""
     from dendropy.dataio import nexusprocessing
 
     def esc(s):
+        if raw_hyphen and raw_hyphen_ok(s):
+            return s
         return nexusprocessing.escape_nexus_token(s, preserve_spaces=False, quote_underscores=True)
 
     def f(n, root):
@@ -71,7 +93,10 @@ def spec_newick(rng, t, labels, token_of=None, with_len=True, node_comments=Fals
         if node_comments:
             s += rng.choice(NODE_COMMENTS)
         if with_len and n["len"] is not None:
-            s += ":%r" % (n["len"] * dvtrees.UNIT)
+            if exotic and rng.random() < 0.4:
+                s += ":%r" % rng.choice(EXOTIC_LENGTHS)
+            else:
+                s += ":%r" % (n["len"] * dvtrees.UNIT)
         return s
     return f(t, True)
 
@@ -85,18 +110,18 @@ def library_statement(rng, t, labels):
     return tree.as_string("newick", suppress_rooting=True).strip().rstrip(";")
 
 
-def gen_statements(rng, n, pool, ntaxa, token_of=None):
+def gen_statements(rng, n, pool, ntaxa, token_of=None, raw_hyphen=False, exotic=False):
     out = []
     for _ in range(n):
         nl = rng.randint(1, min(5, ntaxa))
         taxa = rng.sample(range(ntaxa), nl)
         t = dvtrees.gen_tree(rng, nl, lengths=rng.choice(["dyadic", "dyadic", "none", "mixed"]), taxa=taxa,
                              unifurcations=rng.choice([0.0, 0.0, 0.15]))
-        if token_of is None and rng.random() < 0.5:
+        if token_of is None and rng.random() < (0.2 if (raw_hyphen or exotic) else 0.5):
             body = library_statement(rng, t, pool)
         else:
             body = spec_newick(rng, t, pool, token_of, node_comments=rng.random() < 0.3,
-                               internal_labels=rng.random() < 0.3)
+                               internal_labels=rng.random() < 0.3, raw_hyphen=raw_hyphen, exotic=exotic)
         out.append(body)
     return out
 
@@ -105,7 +130,7 @@ def gen_newick_doc(rng):
     pool = rng.choice(LABEL_POOLS)
     ntaxa = rng.randint(2, 8)
     n = rng.choice([0, 1, 1, 2, 2, 3, 4, 5, 6])
-    stmts = gen_statements(rng, n, pool, ntaxa)
+    stmts = gen_statements(rng, n, pool, ntaxa, raw_hyphen=rng.random() < 0.3, exotic=rng.random() < 0.3)
     doc = rng.choice(["", "", "", "\n", "[lead] ", ";", " ; "])
     missing = False
     for i, s in enumerate(stmts):
@@ -131,10 +156,22 @@ def gen_nexus_doc(rng):
     ntaxa = rng.randint(2, 8)
     from dendropy.dataio import nexusprocessing
 
+    raw_hyphen = rng.random() < 0.35
+    exotic = rng.random() < 0.35
+    multiline = rng.random() < 0.25          # tree statements that continue on the next line
+
     def esc(s):
+        if raw_hyphen and raw_hyphen_ok(s):
+            return s
         return nexusprocessing.escape_nexus_token(s, preserve_spaces=False, quote_underscores=True)
     kc = rng.choice(KW_CASE)
     feats = {"schema": "nexus"}
+    if multiline:
+        feats["multiline"] = True
+    if raw_hyphen:
+        feats["raw_hyphen"] = True
+    if exotic:
+        feats["exotic_lengths"] = True
     doc = rng.choice(["#NEXUS\n", "#NEXUS\n", "#nexus\n", "#NEXUS [file comment]\n", "[pre]#NEXUS\n"])
     if rng.random() < 0.04:
         doc = rng.choice(["", "#NEXU\n", "(a,b);\n"])
@@ -168,8 +205,8 @@ def gen_nexus_doc(rng):
     if rng.random() < 0.15:
         doc += "BEGIN PAUP;\n  set autoclose=yes;\n  log file=x.log;\nEND;\n"
         feats["unknown_block"] = True
-    if rng.random() < 0.08:
-        nch = 4
+    if rng.random() < 0.16:
+        nch = rng.choice([4, 4, 6])
         char_labels = pool[:ntaxa]
         char_link = ""
         if ntaxa_blocks == 2:
@@ -185,9 +222,21 @@ def gen_nexus_doc(rng):
         feats["chars"] = True
         if feats.get("no_dimensions"):
             feats["chars_without_ntax"] = True      # the MATRIX command needs NTAX: not a valid document for DataSet.get
-        if rng.random() < 0.4:
-            doc += "BEGIN SETS;\n  CHARSET first = 1-2;\nEND;\n"
+        if rng.random() < 0.6:
+            # character sets: single positions, ranges, ranges with a step, ALL (any capitalisation);
+            # the statement that comes last matters for what the block leaves behind in the tokenizer
+            forms = ["1-2", "1-%d" % nch, "2 4", "1-%d\\2" % nch, "2-3 1", "ALL", "all", "All", "1 - 3", "3-."]
+            k = rng.choice([1, 1, 2, 2, 3])
+            chosen = [rng.choice(forms) for _ in range(k)]
+            if rng.random() < 0.5:
+                chosen[-1] = rng.choice(["ALL", "all", "All"])
+            doc += kc("BEGIN") + " " + kc("SETS") + ";\n"
+            for i, f in enumerate(chosen):
+                doc += "  " + kc("CHARSET") + " cs%d = %s;\n" % (i + 1, f)
+            doc += kc("END") + ";\n"
             feats["sets"] = True
+            if chosen[-1].upper() == "ALL":
+                feats["sets_last_all"] = True
     if not feats.get("chars") and rng.random() < 0.03:
         doc += SETS_BLOCK_KEYWORDS       # set names that are the words begin / trees / tree (legal identifiers)
         feats["sets_keywords"] = True
@@ -226,7 +275,7 @@ def gen_nexus_doc(rng):
             if rng.random() < 0.5:
                 rng.shuffle(order)
             chosen = order[:k]
-            names = ["%d" % (i + 1) for i in range(k)] if rng.random() < 0.8 else ["x%d" % i for i in range(k)]
+            names = ["%d" % (i + 1) for i in range(k)] if rng.random() < 0.8 else ["tk%d" % i for i in range(k)]
             token_of = {pool[t]: nm for t, nm in zip(chosen, names)}
             doc += "  " + kc("TRANSLATE") + "\n" + ",\n".join("    %s %s" % (nm, esc(pool[t])) for t, nm in zip(chosen, names))
             if rng.random() < 0.03:
@@ -239,7 +288,9 @@ def gen_nexus_doc(rng):
             # taxa referenced by their NUMBER in the (linked) TAXA block, as NEXUS allows
             token_of = {pool[t]: "%d" % (t + 1) for t in range(ntaxa)}
             feats["numeric_refs"] = True
-        stmts = gen_statements(rng, ntrees, pool, ntaxa, token_of)
+        stmts = gen_statements(rng, ntrees, pool, ntaxa, token_of, raw_hyphen=raw_hyphen, exotic=exotic)
+        if multiline:
+            stmts = [x.replace(",(", ",\n      (") for x in stmts]
         for s in stmts:
             counter += 1
             total += 1
@@ -285,6 +336,28 @@ def gen_nexml_doc(rng):
     return ds.as_string("nexml"), {"schema": "nexml", "nstmts": total}
 
 
+# store_ignored_blocks=True (keep the text of unknown blocks): exercised once the defect found with it is
+# either listed (key SIB_KEY in known_findings.txt) or repaired - see sib_defect()
+SIB = {"enabled": False}
+SIB_KEY = "store-ignored-blocks-delimiters"
+SIB_DOC = "#NEXUS\nBEGIN PAUP;\n  set autoclose=yes;\nEND;\nBEGIN TREES;\n  TREE t1 = (a,\n    (b,c));\nEND;\n"
+_SIB_DEFECT = []
+
+
+def sib_defect():
+    """NexusReader._read_block_without_processing saves ALIASES of the tokenizer's delimiter sets, changes the
+    sets in place and "restores" the same objects: after an unknown block line ends stay captured delimiters,
+    so a tree statement that continues on the next line is malformed for the reader (not for the iterator)"""
+    if not _SIB_DEFECT:
+        import dendropy
+        try:
+            dendropy.TreeList.get(data=SIB_DOC, schema="nexus", store_ignored_blocks=True)
+            _SIB_DEFECT.append(False)
+        except Exception:
+            _SIB_DEFECT.append(True)
+    return _SIB_DEFECT[0]
+
+
 def gen_case(rng, schema=None):
     schema = schema or rng.choice(["newick", "nexus", "nexus", "nexus"])
     if schema == "newick":
@@ -305,6 +378,8 @@ def gen_case(rng, schema=None):
             kw2["preserve_underscores"] = True
         if rng.random() < 0.1:
             kw2["suppress_edge_lengths"] = True
+        if schema == "nexus" and SIB["enabled"] and rng.random() < 0.15:
+            kw2["store_ignored_blocks"] = True
     ns0 = []
     if rng.random() < 0.5:
         pool = rng.choice(LABEL_POOLS)
@@ -705,6 +780,8 @@ def oracle_run(case, run):
     V = []
 
     def viol(what, key):
+        if kw.get("store_ignored_blocks") and case["feats"].get("unknown_block") and sib_defect():
+            key = SIB_KEY
         V.append((what + tag + "; document: %r" % case["doc"][:400], key))
 
     def err_mismatch(route, got, want_desc, want_err):
@@ -1169,6 +1246,8 @@ FIXED_DOCS = [
     ("nexus", "#NEXUS\nBEGIN TAXA; TITLE T1; DIMENSIONS NTAX=2; TAXLABELS a b; END;\nBEGIN TAXA; TITLE T2; DIMENSIONS NTAX=2; TAXLABELS c d; END;\n"
               "BEGIN TREES; LINK TAXA = T2; TREE y = (1,2); END;\n"),
     ("nexus", SETS_KEYWORDS_DOC),
+    ("nexus", CHARS_SETS_HYPHEN_DOC),
+    ("nexus", CHARS_SETS_HYPHEN_DOC.replace("CHARSET whole = ALL;", "CHARSET part = 2-3;")),
     ("newick", "(a,b);(c,d);"),
     ("newick", ""),
     ("newick", "(a,b)"),
@@ -1179,8 +1258,12 @@ FIXED_DOCS = [
 def fixed_cases():
     out = []
     for schema, doc in FIXED_DOCS:
-        out.append({"schema": schema, "doc": doc, "feats": {"schema": schema, "nstmts": doc.count("(") and 2, "fixed": True,
+        # "fixed" marks a hand-made document that may lie outside the property's quantifier (only contents of
+        # routes that succeed are compared); the characters + SETS documents are valid ones
+        out.append({"schema": schema, "doc": doc, "feats": {"schema": schema, "nstmts": doc.count("(") and 2,
+                                                           "fixed": "BEGIN CHARACTERS" not in doc,
                                                            "numeric_refs": "(1,2" in doc, "sets_keywords": "CHARSET both" in doc,
+                                                           "chars": "BEGIN CHARACTERS" in doc, "sets": "BEGIN SETS" in doc and "BEGIN CHARACTERS" in doc,
                                                            "taxa_blocks": doc.upper().count("BEGIN TAXA")},
                     "kw2": {"store_tree_weights": True}, "ns0": ["b", "zz"], "array_offset": 0})
     return out
@@ -1261,6 +1344,7 @@ def run(tier, seed, replay=None):
         "model coq/Model/C13Model.v is a hand transcription of the route drivers; tied by this correspondence run",
         "the Newick statement parser is an arbitrary function in the theorems; the correspondence run instantiates it with a skeleton parser (statement boundaries, comments, rooting tokens, taxon symbol resolution)",
         "string / stream / path dispatch, NeXML routes, character matrices: implementation-side oracle only",
+        "translator tie (Gen/Routes.v, Props/C13Gen.v): trusted are the compiler py/dv/gen_routes.py and the stated Python meaning of the interface operations in coq/Model/C13GenPrims.v (tokenizer methods, _get_taxon_namespace, _get_taxon_symbol_mapper, _parse_translate_statement, _parse_taxa_block, _new_tree_list, _build_tree_from_newick_tree_string, comment processing, reader.read_tree_lists glue in Proofs/C13GenEntry.v route_reader); these are tied to the source by the correspondence run only",
     ]
     if replay:
         r = json.load(open(replay))["replay"]
@@ -1270,7 +1354,13 @@ def run(tier, seed, replay=None):
         print("document:", case["doc"])
         print("oracle:", vs if vs else "no violation")
         return 1 if vs else 0
-    ok = core.proof_stage(ctx, ["Props/C13.vo", "Model/C13CharsCase.vo"])
+    SIB["enabled"] = (SIB_KEY in ctx.known) or not sib_defect()
+    if not SIB["enabled"]:
+        ctx.notes.append("reader option store_ignored_blocks=True not exercised: defect %s is present and not listed" % SIB_KEY)
+    # translator tie: coq/Gen/Routes.v is re-derived from the current source by py/dv/gen_routes.py on every run;
+    # Props/C13Gen.v proves the compiled functions equal to the hand model
+    ok = core.proof_stage(ctx, ["Props/C13.vo", "Model/C13CharsCase.vo", "Props/C13Gen.vo"], gen_needed=("Routes",))
+    ok = core.proof_stage(ctx, ["Props/C13Gen.vo"], props_file="Props/C13Gen.v", gen_needed=("Routes",)) and ok
     if not ok:
         core.broken_proof(ctx, search)
     n = 260 if tier == "quick" else 3000
